@@ -117,6 +117,14 @@ CHECKS = {
                      "and with -no-gen-OER / -no-gen-PER; every build decodes the reference DER, emits DER/UPER/OER/CXER/BXER and decodes the default build's outputs; "
                      "each column must equal the default build's (its own reading of its outputs is the yardstick for cross-decoding).",
                 note="quick: default + each single option + 2 random subsets for 2 modules; thorough: all 64 subsets for 2 modules, random subsets for 8 more; option sets that do not build are inconclusive (C10)."),
+    "C18": dict(level="exploration", engine="vdriver", ref="DESIGN.md 4/C18",
+                technique="reference-model + safety monitor: generated CLASS/object-set modules; open-type frames judged against reference DER / X.691 open-type framing and the element names in CANONICAL-XER; mismatches, unknown identifiers and mutants under ASan+UBSan with the allocation ledger",
+                text="Modules with a CLASS { &id UNIQUE, &Type }, an object set of 1..8 rows (inline / named objects, extensible or not, INTEGER / INTEGER (0..255) / OBJECT IDENTIFIER "
+                     "identifiers, primitive and constructed row types) and a Frame SEQUENCE with @ident / @.ident relation; every row x values: reference DER accepted, the paired "
+                     "type shown under <value>, DER and UPER bytes equal to the reference framing, UPER/XER round trips; identifier of row i with bytes of row j, identifiers "
+                     "without a row, and byte mutations of BER/UPER/XER encodings must fail (or succeed only if the row type's own decoder accepts the bytes) with no sanitizer "
+                     "report and nothing allocated after FREE.",
+                note="OER is outside the statement; row types whose own codec does not round-trip a value (C01 findings) are not counted against the open type."),
 }
 
 PENDING_REASON = "check not implemented yet (bring-up in progress; see DESIGN.md section 9)"
